@@ -613,6 +613,12 @@ def pow2_of(k):
 
 # ------------------------------------------------------------------ ghost event trace (sequencer hooks)
 _TRACE = []
+_TRACE_DEPTH = [0]      # > 0 while a callee that the contract views as ONE event is running (its own hooks are not recorded)
+
+
+def _trace_add(rec):
+    if _TRACE_DEPTH[0] == 0:
+        _TRACE.append(rec)
 
 
 @primitive
@@ -760,3 +766,39 @@ def vlq_val_at(data, p):
             ((data[p] % 128) * 128 + data[p + 1] if data[p + 1] < 128 else
              ((data[p] % 128) * 16384 + (data[p + 1] % 128) * 128 + data[p + 2] if data[p + 2] < 128 else
               (data[p] % 128) * 2097152 + (data[p + 1] % 128) * 16384 + (data[p + 2] % 128) * 128 + data[p + 3] % 128)))
+
+
+# ------------------------------------------------------------------ sequencer: one bar played entry by entry
+
+def seq_bpm_after(bpm, e):
+    """tempo after an entry: a container carrying a bpm attribute changes it"""
+    return e[2].bpm if hasattr(e[2], 'bpm') else bpm
+
+
+def seq_entry_events(e, channel, bpm):
+    """Sequencer.play_Bar for one entry at tempo bpm: the content is played (velocity 100), the sequencer sleeps for the
+    entry's length at the tempo in force AFTER the entry's own tempo change (quarter = 60/bpm s, value v lasts 4/v
+    quarters), reports the sleep, then stops the content"""
+    return [('play_NoteContainer', e[2], channel, 100),
+            ('sleep', (60.0 / seq_bpm_after(bpm, e)) * (4.0 / e[1])),
+            ('notify', 4, {'s': (60.0 / seq_bpm_after(bpm, e)) * (4.0 / e[1])}),
+            ('stop_NoteContainer', e[2], channel)]
+
+
+def seq_bar_events(entries, channel, bpm):
+    return [] if len(entries) == 0 else (seq_entry_events(entries[0], channel, bpm) +
+                                         seq_bar_events(entries[1:], channel, seq_bpm_after(bpm, entries[0])))
+
+
+def seq_final_bpm(entries, bpm):
+    return bpm if len(entries) == 0 else seq_final_bpm(entries[1:], seq_bpm_after(bpm, entries[0]))
+
+
+def seq_track_events(bars, channel, bpm):
+    """Sequencer.play_Track: every bar in order, each at the tempo the bar before it ended with"""
+    return [] if len(bars) == 0 else ([('play_Bar', bars[0], channel, bpm)] +
+                                      seq_track_events(bars[1:], channel, seq_final_bpm(bars[0].bar, bpm)))
+
+
+def seq_track_final_bpm(bars, bpm):
+    return bpm if len(bars) == 0 else seq_track_final_bpm(bars[1:], seq_final_bpm(bars[0].bar, bpm))
